@@ -103,10 +103,10 @@ Definition core3 (w' w : world) (l : list wl) (c : list cont) : Prop :=
 Lemma core_eq_core3 : forall w' w l c, core_eq w' w l c -> core3 w' w l c.
 Proof. unfold core_eq, core3. tauto. Qed.
 
-Lemma send_core : forall m w k, exists w' k', crunk (send m) w k = (w', k', tt) /\ core3 w' w (wls w) (conts w).
+Lemma send_core : forall m w k, exists w', crunk (send m) w k = (w', k, tt) /\ core3 w' w (wls w) (conts w) /\ out w' = m :: out w.
 Proof.
-  intros m w k. unfold send, ign, doc, call1, crunk. norm.
-  destruct k as [[|k]|]; norm; cbn [exec]; do 2 eexists; (split; [reflexivity|]); repeat split.
+  intros m w k. unfold send, ign, doc, call1, crunk. norm. cbn [exec].
+  eexists. split; [reflexivity|]. split; [repeat split|reflexivity].
 Qed.
 
 Definition inst (opi : nat) (pod n : name) (r : res) (i : nat) : wl := mkWl (mkWid opi n i) n pod r.
@@ -138,7 +138,7 @@ Qed.
 Lemma crunk_none_stays : forall A (p : cprog A) w, snd (fst (crunk p w None)) = None.
 Proof.
   unfold crunk. induction p as [a|c q IH]; intros w; simpl; [reflexivity|].
-  destruct (exec w c) as [w' r]. apply IH.
+  destruct (exec w c) as [w' r]. destruct (is_faultable c); apply IH.
 Qed.
 Lemma crunk_none_k : forall A (p : cprog A) w w' k' a, crunk p w None = (w', k', a) -> k' = None.
 Proof. intros A p w w' k' a H. pose proof (crunk_none_stays A p w) as E. rewrite H in E. exact E. Qed.
@@ -164,18 +164,19 @@ Lemma deploy_loop_spec : forall opi pod n r idxs w k,
     incl failed idxs /\ failed = filter (fun i => existsb (Nat.eqb i) failed) idxs /\
     (failed <> [] -> k' = None) /\
     ms = map (fun i => if existsb (Nat.eqb i) failed then MCreateFail n else MCreateOk (mkWid opi n i) r) idxs /\
+    out w' = rev ms ++ out w /\
     core3 w' w (wls w ++ map (inst opi pod n r) (succ_of idxs failed))
                (conts w ++ map (instc opi n) (succ_of idxs failed)).
 Proof.
   intros opi pod n r idxs. induction idxs as [|i rest IH]; intros w k Hnd Hfresh.
-  - unfold crunk. simpl. do 4 eexists. split; [reflexivity|]. split; [intros ? []|]. split; [reflexivity|]. split; [congruence|]. split; [reflexivity|].
+  - unfold crunk. simpl. do 4 eexists. split; [reflexivity|]. split; [intros ? []|]. split; [reflexivity|]. split; [congruence|]. split; [reflexivity|]. split; [reflexivity|].
     simpl. rewrite !app_nil_r. repeat split.
   - inversion Hnd as [|? ? Hni Hnd']; subst.
     cbn [deploy_loop]. rewrite crunk_bind.
     destruct (Hfresh i (or_introl eq_refl)) as [Hx Hc].
     destruct (deploy_one_spec (inst opi pod n r i) (Some opi) w k Hx Hc) as [w1 [k1 [e [H1 [Hok Hfail]]]]].
     unfold inst in H1. rewrite H1. rewrite crunk_bind.
-    destruct (send_core (if is_ok e then MCreateOk (mkWid opi n i) r else MCreateFail n) w1 k1) as [w2 [k2 [H2 Hs]]].
+    destruct (send_core (if is_ok e then MCreateOk (mkWid opi n i) r else MCreateFail n) w1 k1) as [w2 [H2 [Hs Hout2]]].
     rewrite H2. rewrite crunk_bind.
     (* the rest of the instances are still fresh *)
     assert (Hfresh2 : forall j, In j rest -> fresh w2 opi n j).
@@ -187,7 +188,7 @@ Proof.
       - destruct (Hok eq_refl) as [_ [_ [_ [_ [_ [_ [Hw1 Hc1]]]]]]]. rewrite Hw1, Hc1.
         rewrite find_wl_app_other by (apply wid_neq; auto).
         rewrite find_cont_app_other by (apply wid_neq; auto). auto. }
-    destruct (IH w2 k2 Hnd' Hfresh2) as [w3 [k3 [failed [ms [H3 [Hincl [Hsub [Hkn [Hms Hcore]]]]]]]]].
+    destruct (IH w2 k1 Hnd' Hfresh2) as [w3 [k3 [failed [ms [H3 [Hincl [Hsub [Hkn [Hms [Hout3 Hcore]]]]]]]]]].
     rewrite H3. unfold crunk. cbn [runk].
     assert (Hnotin : existsb (Nat.eqb i) failed = false).
     { destruct (existsb (Nat.eqb i) failed) eqn:E; auto. apply existsb_exists in E. destruct E as [j [Hj E]].
@@ -198,29 +199,31 @@ Proof.
     destruct Hcore as [Hp3 [Hn3 [Hpl3 [Hst3 [Hsc3 [Hw3 Hc3]]]]]].
     destruct e as [err|]; cbn [is_ok fst snd].
     + (* this instance failed *)
-      destruct (Hfail ltac:(discriminate)) as [[Hp1 [Hn1 [Hpl1 [_ [Hst1 [Hsc1 [Hw1 Hc1]]]]]]] Hk1].
+      destruct (Hfail ltac:(discriminate)) as [[Hp1 [Hn1 [Hpl1 [Ho1 [Hst1 [Hsc1 [Hw1 Hc1]]]]]]] Hk1].
       exists w3, k3, (i :: failed), (MCreateFail n :: ms). split; [reflexivity|].
       split; [intros j [<-|Hj]; [left; reflexivity|right; apply Hincl; exact Hj]|].
       split.
       { cbn [filter existsb]. rewrite Nat.eqb_refl. cbn [orb]. f_equal. rewrite Hsub at 1. apply filter_ext_in. intros j Hj.
         assert (Nat.eqb j i = false) as -> by (apply Nat.eqb_neq; intro; subst; auto). reflexivity. }
       split.
-      { intros _. subst k1. apply crunk_none_k in H2. subst k2. apply crunk_none_k in H3. exact H3. }
-      split.
+      { intros _. subst k1. apply crunk_none_k in H3. exact H3. }
+      split; [|split].
       * cbn [map existsb]. rewrite Nat.eqb_refl. cbn [orb]. f_equal. rewrite Hms. apply map_ext_in. intros j Hj.
         assert (Nat.eqb j i = false) as -> by (apply Nat.eqb_neq; intro; subst; auto). reflexivity.
+      * cbn [rev]. rewrite Hout3, Hout2, Ho1, <- app_assoc. reflexivity.
       * rewrite succ_of_failed_head by exact Hni.
         unfold core3. rewrite Hp3, Hn3, Hpl3, Hst3, Hsc3, Hw3, Hc3, Hp2, Hn2, Hpl2, Hst2, Hsc2, Hw2, Hc2, Hp1, Hn1, Hpl1, Hst1, Hsc1, Hw1, Hc1.
         repeat split.
     + (* this instance succeeded *)
-      destruct (Hok eq_refl) as [Hp1 [Hn1 [Hpl1 [_ [Hst1 [Hsc1 [Hw1 Hc1]]]]]]].
+      destruct (Hok eq_refl) as [Hp1 [Hn1 [Hpl1 [Ho1 [Hst1 [Hsc1 [Hw1 Hc1]]]]]]].
       exists w3, k3, failed, (MCreateOk (mkWid opi n i) r :: ms). split; [reflexivity|].
       split; [intros j Hj; right; apply Hincl; exact Hj|].
       split.
       { cbn [filter]. rewrite Hnotin. exact Hsub. }
       split; [exact Hkn|].
-      split.
+      split; [|split].
       * cbn [map]. rewrite Hnotin. f_equal. exact Hms.
+      * cbn [rev]. rewrite Hout3, Hout2, Ho1, <- app_assoc. reflexivity.
       * rewrite succ_of_ok_head by exact Hnotin. cbn [map].
         unfold core3. rewrite Hp3, Hn3, Hpl3, Hst3, Hsc3, Hw3, Hc3, Hp2, Hn2, Hpl2, Hst2, Hsc2, Hw2, Hc2, Hp1, Hn1, Hpl1, Hst1, Hsc1, Hw1, Hc1.
         cbn [inst instc w_id]. rewrite <- !app_assoc. repeat split.
